@@ -276,6 +276,15 @@ func runImpl(text string, vars map[string]string, st numscript.Store, flag bool)
 			for k, v := range vars {
 				warm[k] = perturbVar(v)
 			}
+			if ts.kind == skStatic {
+				// the bundled store hands out its own maps: the warm-up runs against the VERY store of the
+				// case (a run leaves the store as it found it), without counting its calls
+				fa := ts.failAt
+				ts.failAt = -1
+				p.RunWithFeatureFlags(context.Background(), warm, ts, flags)
+				ts.failAt, ts.ncalls, ts.log = fa, 0, nil
+				return
+			}
 			p.RunWithFeatureFlags(context.Background(), warm, newStore(ts.kind, deepCopyBalances(ts.bal), deepCopyMeta(ts.meta), -1), flags)
 		}()
 	}
